@@ -151,6 +151,8 @@ def install(engine: Any) -> None:
         return VBool(_kind(it, base, "is_dir"))
 
     def p_read_text(it, base, args, kwargs, node, fr):
+        if base.data.get("label") == "snippet":
+            return p_read_text_utf8(it, base, args, kwargs, node, fr)
         _touch(it, "read", base)
         f = z3.Function("file_text", z3.IntSort(), SEQ)
         return VStr([f(base.ident)])
@@ -185,6 +187,45 @@ def install(engine: Any) -> None:
     def p_write_text(it, base, args, kwargs, node, fr):
         _touch(it, "write", base)
         return NONE
+
+    def p_glob(it, base, args, kwargs, node, fr):
+        # an arbitrary finite enumeration of the entries below the directory, in arbitrary order
+        _touch(it, "glob", base)
+        n = z3.Function("glob_len", z3.IntSort(), z3.IntSort())(base.ident)
+        it.path.add_fact(n >= 0)
+        el = z3.Function("glob_el", z3.IntSort(), z3.IntSort(), z3.IntSort())
+        it.note_assumption("Path.glob('**/*') enumerates every entry below the directory once, in an arbitrary order")
+
+        def get(idx):
+            return VExt("pathlib.Path", el(base.ident, idx), {"label": "snippet"})
+        return VList([], base_len=n, base_get=get)
+
+    def p_relative_to(it, base, args, kwargs, node, fr):
+        f = z3.Function("path_relative_to", z3.IntSort(), z3.IntSort(), z3.IntSort())
+        return VExt("pathlib.Path", f(base.ident, args[0].ident), {"label": "rel"})
+
+    def p_as_posix(it, base, args, kwargs, node, fr):
+        return VStr([z3.Function("path_as_posix", z3.IntSort(), SEQ)(base.ident)])
+
+    def p_read_text_utf8(it, base, args, kwargs, node, fr):
+        _touch(it, "read", base)
+        ok = z3.Function("pred_file_is_utf8", z3.IntSort(), z3.BoolSort())(base.ident)
+        if it.path.branch(ok):
+            return VStr([z3.Function("file_text", z3.IntSort(), SEQ)(base.ident)])
+        raise RaiseEx(VExc("UnicodeDecodeError", [it.opaque_str("decode-error")]), node)
+
+    def path_parts(it, base, node, fr):
+        n = z3.Function("path_parts_len", z3.IntSort(), z3.IntSort())(base.ident)
+        it.path.add_fact(n >= 0)
+        f = z3.Function("path_part", z3.IntSort(), z3.IntSort(), SEQ)
+        lst = VList([], base_len=n, base_get=lambda idx: VStr([f(base.ident, idx)]))
+        lst.kind = "tuple"
+        return lst
+
+    engine.ext_attrs[("Path", "parts")] = path_parts
+    em[("Path", "glob")] = p_glob
+    em[("Path", "relative_to")] = p_relative_to
+    em[("Path", "as_posix")] = p_as_posix
 
     for nm, fn in (("exists", p_exists), ("is_file", p_is_file), ("is_dir", p_is_dir), ("read_text", p_read_text),
                    ("open", p_open), ("mkdir", p_mkdir), ("rename", p_rename), ("unlink", p_unlink),
